@@ -137,6 +137,32 @@ def mutate_text(rng, t):
     return t[:j] + rng.choice(['$', '@', ';', '}', '{', ',', '<', '"', "'", '#', '0x', ' type ', ')', '::', ' pub ', ' pub ', ' extern ',
                                ' fn ', ' impl ', ' use ', ' mut ', ' const ', ' enum ', ' vftable ', ' _ ', ' * ', ' & ', ' -> ', ' = ', ' : ']) + t[j:]
 
+def semi_module(rng):
+    """(text, module) of a module whose empty types are written `type Name;`"""
+    defs, out = [], []
+    for k in range(rng.randint(1, 4)):
+        at, parts = [], []
+        if rng.random() < 0.4:
+            d = rng.choice([' a doc line', ' second', ''])
+            at.append(a_doc(d)); out.append('///' + d)
+        for (nm, vals) in (('size', [0, 4, 6, 8, 16, 24]), ('align', [1, 2, 3, 4, 8, 16]), ('singleton', [4096, 0x1000_0000])):
+            if rng.random() < 0.45:
+                v = rng.choice(vals); at.append(a_int(nm, v)); parts.append('%s(%s)' % (nm, rng.choice(['%d', '0x%X']) % v))
+        for nm in ('packed', 'copyable', 'cloneable', 'defaultable'):
+            if rng.random() < 0.25:
+                at.append(a_ident(nm)); parts.append(nm)
+        pub = rng.random() < 0.5
+        name = 'S%d' % k
+        if parts:
+            out.append('#[' + ', '.join(parts) + ']')
+        if rng.random() < 0.75:
+            out.append('%stype %s%s;' % ('pub ' if pub else '', name, rng.choice(['', ' ', '  '])))
+            defs.append(type_def(pub, name, at, []))
+        else:
+            out.append('%stype %s { a: u32 }' % ('pub ' if pub else '', name))
+            defs.append(type_def(pub, name, at, [field(False, 'a', ty_id('u32'), [])]))
+    return '\n'.join(out) + '\n', module(defs=defs)
+
 def judge_all(cases, impl, model, tier):
     import random
     fs = []
@@ -159,6 +185,12 @@ def judge_all(cases, impl, model, tier):
             if rng.random() < 0.35:
                 c3 = case('%s#%d!' % (cid, k), 4, [tmodule(me[2], mutate_text(rng, text))])
                 second.append(c3); origin[c3[1]] = (None, 'malformed')
+    # the grammar's second spelling of an empty type, `type Name;` (the Lean printer always writes braces): texts written
+    # here, with their module; attributes, visibility and doc comments must survive exactly as for the braced form
+    for i in range(max(20, len(cases) // 20)):
+        text, mod = semi_module(rng)
+        c2 = case('semi%d#0' % i, 4, [tmodule('m.pyxis', text)])
+        second.append(c2); origin[c2[1]] = (mod, 'render')
     lines = [sexp.dump(c2) for c2 in second]
     impl2 = core.run_harness(lines, ['o1'], jobs=12)
     model2 = core.run_model(lines, ['o1'], jobs=12)
